@@ -69,6 +69,9 @@ def run_real(cfg, max_steps=6000):
                 else:
                     obj.publish(Event(signal="PING", payload=1), priority=prio)
             pub_actions = {"DO_PUB": do_publish}
+            if cfg.get("own_stop_first"):
+                # the handler stops its own chart and THEN announces it: `chart.stop(); chart.publish(...)`
+                pub_actions = {"DO_PUB": lambda obj: (obj.stop(), do_publish(obj))}
             sub_chart = make_chart(log, "A", cfg["sub_spied"], sub_actions)
             pub_chart = make_chart(log, "P", cfg["pub_spied"], pub_actions)
 
@@ -435,6 +438,9 @@ def explore(run, n):
     outs = leanrun.run_driver([encode(c) for c in cfgs])
     for cfg, mo in zip(cfgs, outs):
         cfg = dict(cfg, priority=rng.choice(["default", "default", 1, 1, 0, 2, 7, 1000, 1001, 1.0, True]))
+        if cfg["pub_when"] not in ("before_start", "after_outside") and rng.random() < 0.35:
+            cfg["own_stop_first"] = True
+            run.count("the publishing handler stops its own chart first")
         if rng.random() < 0.25:
             cfg["clear_then_resub"] = True
             run.count("registry cleared, then the running object subscribes again")
